@@ -434,6 +434,8 @@ class Explorer:
                             continue
                         if isinstance(cv, EnumV) and is_z3(cv.idx) and z3.is_const(cv.idx) and cv.idx.decl().name() == pv.name:
                             continue
+                        if isinstance(cv, containers.SymKey) and z3.is_const(cv.term) and cv.term.decl().name() == pv.name:   # containers
+                            continue
                         if cv is None or isinstance(cv, Opaque) or isinstance(cv, (SymFloat,)):
                             # union resolved to None / opaque: fine if forced from this lazy
                             continue
